@@ -274,7 +274,8 @@ where
     }
     // substitution: x0 := f_a, x2 := f_b for a few (a, b)
     for (a, b) in [(3usize, 11usize), (20, 5), (40, 41)] {
-        let s = Subst::new(vec![0u32, 2], vec![fns[a].clone(), fns[b].clone()]);
+        // every substitution object is created by a short-lived thread of its own (a client thread's first one)
+        let s = std::thread::scope(|sc| sc.spawn(|| Subst::new(vec![0u32, 2], vec![fns[a].clone(), fns[b].clone()])).join().unwrap());
         for (i, f) in fns.iter().enumerate() {
             let exp = model::substitute(tabs[i], &[Some(tabs[a]), None, Some(tabs[b])], n);
             record::<K>(d, &format!("order {o} substitute({:#x};{:#x},{:#x})", tabs[i], tabs[a], tabs[b]), &f.substitute(&s), exp, mism);
